@@ -44,6 +44,7 @@ class Writes:
         self.cg = CallGraph(model)
         self.summ = {}
         self._visited = set()
+        self._alias_of = {}
 
     def fixpoint(self, f):
         for _ in range(8):
@@ -132,13 +133,14 @@ class Writes:
                     if not r <= cur:
                         cur |= r
                         changed = True
-        self._alias = alias
+        self._alias_of[f.qualname] = alias
         return roots, params
 
     def base_roots(self, f, e, roots):
         """Roots of the object that a store / mutating call on `e` modifies."""
-        if isinstance(e, ast.Name) and e.id in self._alias:
-            return set(self._alias[e.id])
+        alias = self._alias_of.get(f.qualname, {})
+        if isinstance(e, ast.Name) and e.id in alias:
+            return set(alias[e.id])
         return self.expr_roots(f, e, roots)
 
     def expr_roots(self, f, e, roots):
@@ -414,8 +416,9 @@ def set_typed(m, f):
     return sets, set_funcs
 
 
-def _callee_param_order_insensitive(m, f, call, argi):
-    """The set is handed to a repo function that only tests membership / adds."""
+def _callee_param_order_insensitive(m, f, call, argi, _depth=0):
+    """The set is handed to a repo function that only tests membership / adds
+    (or hands it on, unchanged, to such a function)."""
     fn = call.func
     g = None
     if isinstance(fn, ast.Name):
@@ -447,6 +450,10 @@ def _callee_param_order_insensitive(m, f, call, argi):
             if isinstance(par, ast.Attribute) and par.attr in ("add", "discard", "update", "remove"):
                 continue
             if isinstance(par, ast.arg) or isinstance(n.ctx, ast.Store):
+                continue
+            # passed on positionally to another repo function that is order-insensitive in it
+            if isinstance(par, ast.Call) and n in par.args and _depth < 3 and \
+                    _callee_param_order_insensitive(m, g, par, par.args.index(n), _depth + 1):
                 continue
             uses_ok = False
     return uses_ok
